@@ -57,8 +57,8 @@ def config_class(cfg):
 
 def plan(tier):
     if tier == 'thorough':
-        return {'cases': 40000, 'chunk': 40, 'budget_s': 1200, 'case_timeout_s': 120, 'minimise_budget_s': 60}
-    return {'cases': 2600, 'chunk': 20, 'budget_s': 80, 'case_timeout_s': 120, 'minimise_budget_s': 30}
+        return {'cases': 40000, 'chunk': 40, 'budget_s': 1200, 'case_timeout_s': 90, 'minimise_budget_s': 60}
+    return {'cases': 2600, 'chunk': 20, 'budget_s': 80, 'case_timeout_s': 90, 'minimise_budget_s': 30}
 
 
 # ------------------------------------------------------------------------------------------ generation
@@ -70,6 +70,15 @@ def gen(rng, index, tier):
         stl = corpus.OK[name][0]
         return {'kind': 'assembled', 'program': name, 'w': rng.choice([32, 64]) if stl else rng.choice([8, 16, 32, 64]),
                 'version': rng.choice([0, 1, 2, 3, 3]), 'preset': 6, 'calls': [], 'seed': rng.getrandbits(32)}
+    if index % 96 == 11:
+        # a BIG payload (more than 1 MiB once decoded; highly compressible, so the version-3 file itself is small):
+        # decoders that work in bounded steps / chunks behave differently beyond such sizes
+        w = 64
+        nwords = rng.choice([132000, 140000, 150000])
+        calls = [['pdata', nwords, rng.choice([1, 5, 64]), rng.getrandbits(16)],
+                 ['seg', 0, nwords + rng.choice([0, 2, 1000]), 0, nwords]]
+        return {'w': w, 'version': rng.choice([3, 3, 3, 0, 1, 2]), 'preset': rng.choice([0, 6]), 'calls': calls,
+                'seed': rng.getrandbits(32), 'kind': 'writer', 'big': True}
     w = rng.choice([8, 16, 32, 64])
     version = rng.choice([0, 1, 2, 3])
     mw = 1 << (w - (w.bit_length() - 1))
@@ -249,6 +258,12 @@ def build_file(case):
         for c in case['calls']:
             if c[0] == 'data':
                 wr.add_data(list(c[1]))
+            elif c[0] == 'pdata':
+                # a long periodic pattern with a few odd words (kept out of the case so that replays stay small)
+                _, nwords, period, salt = c
+                data = [((i % period) * 2 + salt) & ((1 << case['w']) - 1) if i % 50021 else (salt * 40503 + i) &
+                        ((1 << case['w']) - 1) for i in range(nwords)]
+                wr.add_data(data)
             else:
                 wr.add_segment(c[1], c[2], c[3], c[4])
         wr.write_to_file()
@@ -344,8 +359,13 @@ def run(case):
     time_bound = 1.0 + n / 20000.0
 
     # ---- 1. every strict prefix (crash / full disk / kill at byte b)
-    if n <= 4096:
+    if n <= 4096 and not case.get('big'):
         cuts = range(n)
+    elif case.get('big') and n <= 16384:
+        # every open decodes more than a megabyte: the ends, the write boundaries and a sample
+        cs = set(range(0, 12)) | set(range(max(0, n - 48), n)) | {rng.randrange(n) for _ in range(40)}
+        cs |= {int(n * f) for f in (0.1, 0.25, 0.5, 0.75, 0.9, 0.99)}
+        cuts = sorted(c for c in cs if 0 <= c < n)
     else:
         cs = set(range(0, 64)) | set(range(max(0, n - 32), n))
         acc = 0
@@ -367,6 +387,11 @@ def run(case):
                  'accepted with a different image')
         if dt > time_bound and open_variant(F[:b])[2] > time_bound:      # (re-measured: not a stall of the machine)
             viol('time', f'prefix[:{b}]', f'<= {time_bound:.2f}s', f'{dt:.2f}s')
+    if case.get('big'):
+        # (the other damage kinds are exercised on the small files; here every open costs a megabyte of decoding)
+        probes['big_payload_file'] = 1
+        return {'violations': violations, 'probes': probes, 'faults': faults, 'states': states, 'steps': evals,
+                'nontrivial': evals > 10, 'digest': kernel.digest_of([case, sorted(states), len(violations)])}
     # ---- 2. lost blocks (zero-filled)
     for bs in (64, 512):
         if n > bs:
